@@ -44,6 +44,25 @@ theorem pow_byteLen_le (n : Nat) (h : 256 ≤ n) : 256 ^ (byteLen n - 1) ≤ n :
     · have : byteLen (n / 256) = 1 := by rw [byteLen]; rw [if_pos (by omega)]
       rw [this]; simpa using h
 
+/-- `byteLen` is determined by the two bounds: `n` has exactly `k + 1` base-256 digits -/
+theorem byteLen_unique (n k : Nat) (hlo : 256 ^ k ≤ n) (hhi : n < 256 ^ (k + 1)) : byteLen n = k + 1 := by
+  have h1 := lt_pow_byteLen n
+  have hp := byteLen_pos n
+  by_cases hk : k = 0
+  · subst hk
+    rw [byteLen, if_pos (by simpa using hhi)]
+  · have h256 : 256 ≤ n := by
+      have : 256 ^ 1 ≤ 256 ^ k := Nat.pow_le_pow_right (by decide) (by omega)
+      simp only [Nat.pow_one] at this; omega
+    have h2 := pow_byteLen_le n h256
+    apply Nat.le_antisymm
+    · apply Classical.byContradiction; intro hgt
+      have : 256 ^ (k + 1) ≤ 256 ^ (byteLen n - 1) := Nat.pow_le_pow_right (by decide) (by omega)
+      omega
+    · apply Classical.byContradiction; intro hlt
+      have : 256 ^ byteLen n ≤ 256 ^ k := Nat.pow_le_pow_right (by decide) (by omega)
+      omega
+
 def decodeBE (l : List Nat) : Nat := l.foldl (fun acc b => acc * 256 + b) 0
 
 theorem beBytes_length : ∀ (w n : Nat), (beBytes w n).length = w := by
